@@ -50,10 +50,7 @@ class _AddressList(Writeable):
         if self.headers:
             addresses: list[Address] = []
             for header in self.headers:
-                if isinstance(header, SingleAddressHeader):
-                    addresses.append(header.address)
-                else:
-                    addresses.extend(header.addresses)
+                addresses.extend(header.addresses)
             return List([self._parse(address)
                          for address in addresses])
         else:
@@ -149,8 +146,8 @@ class EnvelopeStructure(Writeable):
 
     @property
     def _value(self) -> Writeable:
-        datetime: DateTime | Nil = \
-            DateTime(self.date.datetime) if self.date else Nil()
+        when = self.date.datetime if self.date else None
+        datetime: DateTime | Nil = DateTime(when) if when else Nil()
         return List([datetime,
                      String.build(self.subject),
                      self._addresses(self.from_),
